@@ -326,6 +326,76 @@ fn ob_c05_var_product_total_size(ka: u8, a1: usize, a2: usize, lo: u8, hi: u8) {
     let _ = ops::product(a, r);
 }
 
+// ---- attribute contracts on the inherent functions of BoundedVariantRange (inject.json) ----------
+
+#[cfg(kani)]
+impl kani::Arbitrary for BoundedVariantRange {
+    fn any() -> Self {
+        let (k, a, b): (u8, usize, usize) = (kani::any(), kani::any(), kani::any());
+        kani::assume(k <= 2 && valid_bvr(k, a, b));
+        mk_bvr(k, a, b)
+    }
+}
+
+//@ob C10.contract.upper_from_lower_extent
+//@ props: C10 C05
+//@ kind: complete
+//@ contract: BoundedVariantRange::upper_from_lower_extent
+//@ fns: src/token/variance/natural.rs::BoundedVariantRange::upper_from_lower_extent
+//@ pre: [attribute contract] lower + extent representable (the invariant try_from_lower_and_upper establishes)
+//@ post: [attribute contract] result = lower + extent
+fn ob_c10_contract_upper_from_lower_extent(lower: usize, extent: usize) {
+    vassume!(lower != 0 && extent != 0 && lower.checked_add(extent).is_some());
+    let r = BoundedVariantRange::upper_from_lower_extent(nz(lower), nz(extent));
+    vreplay_assert!(r.get() == lower + extent, "C10 contract of upper_from_lower_extent");
+}
+
+//@ob C10.contract.upper
+//@ props: C10 C05
+//@ kind: complete
+//@ contract: BoundedVariantRange::upper
+//@ stub_verified: BoundedVariantRange::upper_from_lower_extent
+//@ fns: src/token/variance/natural.rs::BoundedVariantRange::upper
+//@ pre: [attribute contract] well-formed range (lower + extent representable)
+//@ post: [attribute contract, proved MODULARLY against the contract of upper_from_lower_extent] upper() reads back lower + extent for Both, the bound for Upper, nothing for Lower
+fn ob_c10_contract_upper(k: u8, a: usize, b: usize) {
+    vassume!(k <= 2 && valid_bvr(k, a, b));
+    let r = mk_bvr(k, a, b);
+    let u = r.upper().into_usize();
+    vreplay_assert!(u == match k { 0 => None, 1 => Some(a), _ => Some(a + b) }, "C10 contract of upper");
+}
+
+//@ob C10.contract.translation
+//@ props: C10 C05
+//@ kind: complete
+//@ contract: BoundedVariantRange::translation
+//@ fns: src/token/variance/natural.rs::BoundedVariantRange::translation
+//@ pre: [attribute contract] the translated upper-most bound is representable
+//@ post: [attribute contract] same kind, same extent, every bound moved up by exactly `vector`
+fn ob_c10_contract_translation(k: u8, a: usize, b: usize, vector: usize) {
+    vassume!(k <= 2 && valid_bvr(k, a, b));
+    vassume!((if k == 2 { a as u128 + b as u128 } else { a as u128 }) + vector as u128 <= usize::MAX as u128);
+    let r = mk_bvr(k, a, b).translation(vector);
+    vreplay_assert!(mem_bvr(&r, a as u128 + vector as u128), "C10 contract of translation");
+}
+
+//@ob C10.var.conjunction.modular
+//@ props: C10
+//@ kind: complete
+//@ stub_verified: BoundedVariantRange::translation
+//@ fns: src/token/variance/mod.rs::TokenVariance::conjunction src/token/variance/natural.rs::Depth::conjunction<BoundedVariantRange>
+//@ pre: a bounded depth variance a and an invariant depth n (either order), bounds <= 2^62; x in gamma(a)
+//@ post: [MODULAR: the call to BoundedVariantRange::translation is replaced by its verified contract, its body is not in the goto program] x + n in gamma(a /\ n)
+fn ob_c10_var_conjunction_modular(k: u8, a1: usize, a2: usize, n: usize, x: usize, flip: bool) {
+    vassume!(k <= 2 && valid_bvr(k, a1, a2) && magnitude(k + 2, a1, a2) <= BIG as u128 && n <= BIG && x <= BIG);
+    let a: TV = Variance::Variant(Bounded(mk_bvr(k, a1, a2)));
+    let b: TV = Variance::Invariant(Depth::new(n));
+    vassume!(mem(&a, x as u128));
+    vcover!(k == 2 && flip);
+    let r = if flip { ops::conjunction(b, a) } else { ops::conjunction(a, b) };
+    assert!(mem(&r, x as u128 + n as u128), "C10 bounded variance plus an invariant depth (against the contract of translation)");
+}
+
 //@ob C10.natural.canary
 //@ props: C10 C05 C19
 //@ kind: canary
